@@ -961,6 +961,54 @@ def r06c(P, R):
             R.check("R06-c", "add_entry-source:%d" % j, has_field(r[0], SW, V.f_mapper) or has_field(r[0], POS, "file"),
                     "source index comes from the node's file through the mapper",
                     "write_for passes a source index not derived from the node's file", loc=wf.loc())
+    names_key_rule(P, R)
+
+
+INT_TYPES = {"u8", "u16", "u32", "u64", "u128", "usize", "i8", "i16", "i32", "i64", "i128", "isize"}
+MAP_LOOKUPS = {"get", "get_mut", "peek", "peek_mut", "contains", "contains_key", "entry", "get_or_insert", "get_or_insert_with", "get_or_insert_mut",
+               "put", "insert", "push", "remove", "pop"}
+
+
+def names_key_rule(P, R):
+    """The name mapper answers a repeated name from a cache without looking at the `names` table again, so the cache key has to
+    identify the name: the name itself (any string type), or — if it is a fixed-width number computed from the name, which cannot
+    be injective on strings — a hit has to be checked against the stored name before its index is returned."""
+    V = vocab(P)
+    for path in sorted(V.name_fns):
+        g0 = P.fns[path]
+        if not any(peel_ty(x) == "str" for x in g0.sig_inputs):
+            continue
+        g = inl(P, g0)
+        pv = Prov(g, field_assign=False)
+        nm = g0.self_adt
+        names = [pv.params[p_["local"]] for p_ in g.params if p_.get("k") == "Binding" and peel_ty(p_.get("t", "")) == "str"]
+        ftypes = P.adt(nm).field_types()
+        maps = {f_ for f_, t in ftypes.items() if any(m in t for m in ("LruCache<", "HashMap<", "BTreeMap<", "IndexMap<", "HashSet<", "BTreeSet<"))}
+        lists = {f_ for f_, t in ftypes.items() if t.startswith("alloc::vec::Vec<") and "String" in t}
+        keys = []
+        for x in g.walk():
+            if x.get("k") == "MethodCall" and x.get("method") in MAP_LOOKUPS and x["args"]:
+                r = strip(x["recv"])
+                if isinstance(r, dict) and r.get("k") == "Field" and norm(r.get("adt")) == nm and r["field"] in maps:
+                    keys.append(x["args"][0])
+        key = "names-key:" + short(path)
+        if not keys:
+            R.holds("R06-c", key, "names are not cached by a key", loc=g0.loc())
+            continue
+        kts = {peel_ty(k_.get("t", "")) for k_ in keys}
+        if all("str" in t or "String" in t for t in kts):
+            ok = all(any(("param", n_) in pv.atoms(k_) for n_ in names) for k_ in keys)
+            R.check("R06-c", key, ok, "the cache of recently used names is keyed by the name itself",
+                    "%s looks its cache up with a string that is not the name it was given" % path, loc=g0.loc())
+        elif all(t in INT_TYPES for t in kts):
+            verified = [x for x in g.walk() if ((x.get("k") == "Binary" and x.get("op") in ("==", "!=")) or (x.get("k") == "MethodCall" and x.get("method") in ("eq", "ne")))
+                        and any(("param", n_) in pv.atoms(x) for n_ in names) and any(has_field(pv.atoms(x), nm, l_) for l_ in lists)]
+            R.check("R06-c", key, bool(verified), "a hit on the numeric key is checked against the stored name",
+                    "%s de-duplicates the `names` table through a cache keyed by a `%s` computed from the name, and returns the cached index of a hit "
+                    "without comparing the stored name with the one asked for: a fixed-width number cannot tell all identifiers apart, so two names "
+                    "with the same key share one `names` entry and segments carry the wrong name" % (path, sorted(kts)[0]), loc=g0.loc())
+        else:
+            R.undecided("R06-c", key, "the name cache is keyed by `%s`; whether that identifies the name is not decided" % sorted(kts), loc=g0.loc())
 
 
 ARITH = {"+", "-", "*", "/", "%", "+=", "-=", "*="}
